@@ -170,15 +170,47 @@ func chainStress(k *mon.Case, readers, writerOps int) {
 	}
 	var stop atomic.Bool
 	var paused atomic.Bool
+	var tipCommittedChecks, tipCommittedChecksAboveBase atomic.Int64
 	var readOps atomic.Int64
 	var wg sync.WaitGroup
 	fail := func(key, what string, w map[string]any) { k.Violation(key, what, w) }
 
+	// popsStarted/popsDone bracket every removal of the writer: a reader window in which both stay
+	// equal and unchanged saw no removal in flight, so the tip it obtained cannot have been removed
+	// meanwhile and must be in the database (committed), whatever the cache says
+	var popsStarted, popsDone atomic.Int64
+	fresh := blockchain.NewDataAccess(n.DB, 1, -1) // own (empty) cache: reads the database
 	reader := func(id int, rr *rand.Rand) {
 		defer wg.Done()
 		for !stop.Load() {
 			readOps.Add(1)
-			switch rr.Intn(8) {
+			switch rr.Intn(10) {
+			case 8, 9:
+				d0, s0 := popsDone.Load(), popsStarted.Load()
+				if d0 != s0 {
+					continue
+				}
+				b := n.Chain.LastBlock()
+				if completeBlock(b) != "" {
+					continue // judged by case 0
+				}
+				_, herr := fresh.GetBlockHeader(b.Header.ID)
+				var terr error
+				for _, tx := range b.Transactions {
+					if _, err := fresh.GetTransaction(tx.ID); err != nil {
+						terr = err
+					}
+				}
+				if popsStarted.Load() != s0 {
+					continue // a removal started meanwhile: the tip may legitimately be gone
+				}
+				tipCommittedChecks.Add(1)
+				if b.Header.Height > baseHeight {
+					tipCommittedChecksAboveBase.Add(1)
+				}
+				if herr != nil || terr != nil {
+					fail("tip:not-committed:database-does-not-hold-the-tip-handed-to-a-reader", "a reader obtained a tip whose header or transactions are not in the database although no removal was in flight", map[string]any{"height": b.Header.Height, "header_error": fmt.Sprint(herr), "transaction_error": fmt.Sprint(terr)})
+				}
 			case 0, 1:
 				c0 := clk.now()
 				b := n.Chain.LastBlock()
@@ -293,7 +325,9 @@ func chainStress(k *mon.Case, readers, writerOps int) {
 			depth++
 		} else {
 			c0 := clk.now()
+			popsStarted.Add(1)
 			err := n.DeleteTip(false)
+			popsDone.Add(1)
 			c1 := clk.now()
 			if err != nil {
 				k.Inconclusive("writer-delete:" + err.Error())
@@ -308,6 +342,8 @@ func chainStress(k *mon.Case, readers, writerOps int) {
 	wg.Wait()
 	k.Count("reader_ops", int(readOps.Load()))
 	k.Count("writer_ops", writerOps)
+	k.Count("tip_committed_checks_without_removal_in_flight", int(tipCommittedChecks.Load()))
+	k.Count("tip_committed_checks_on_blocks_the_writer_added", int(tipCommittedChecksAboveBase.Load()))
 	// linearizability of the tip (the base tip is the initial state)
 	hmu.Lock()
 	ops := append([]porcupine.Operation{{ClientId: 0, Input: tipOp{kind: "push", id: string(hdrIDs[len(hdrIDs)-1])}, Call: -2, Output: "", Return: -1}}, history...)
